@@ -220,15 +220,15 @@ def flow_collector(rep, mir, L):
                     after = mm.mem[c]; g = lambda f: L.get('DrawCollector', after, f)
                     took = len(g('draws').items) == 1
                     if len(g('draws').items) != len(g('grads').items) or len(g('draws').items) != len(g('logps').items): bad.append((meth, 'draws / grads / logps get out of step'))
-                    want = z3.And(z3.BoolVal(active and not div), A.is_finite(ee), z3.Not(A.lt(mx, ee)) if hasattr(A, 'lt') else z3.Not(z3.fpGT(ee.v, mx.v)), fp, fg)
+                    want = z3.And(z3.BoolVal(not div), A.is_finite(ee), z3.Not(A.lt(mx, ee)) if hasattr(A, 'lt') else z3.Not(z3.fpGT(ee.v, mx.v)), fp, fg)
                     s = z3.Solver(); s.set('timeout', 60000); s.add(*mm.pc); s.add(z3.Not(z3.fpEQ(ee.v, mx.v)))     # an energy error exactly at the limit may go either way
-                    s.add(z3.BoolVal(took) != want)
+                    s.add(z3.And(z3.BoolVal(took), z3.Not(want)))      # one direction only: which of the good points are kept (all, per draw, per leapfrog) is the strategy's business
                     r = s.check()
-                    if r == z3.sat: bad.append((meth, 'orbit' if orbit else 'draws', 'a point is collected although it is divergent / has a non-finite or too large energy error / non-finite position or gradient - or a good point is dropped', str(s.model())[:160]))
+                    if r == z3.sat: bad.append((meth, 'orbit' if orbit else 'draws', 'a point is collected although it is divergent / has a non-finite or too large energy error / non-finite position or gradient', str(s.model())[:160]))
                     elif r == z3.unknown: rep.unknown('C05.7 flow collector %s' % meth, 'solver unknown')
     rep.paths += n
     if bad: rep.violated('C05.7 flow collector', 'flow_collector', 'DrawCollector: %s' % (bad[0],), model={'problems': [str(b)[:300] for b in bad[:5]]})
-    else: rep.holds('C05.7 DrawCollector (flow adaptation): collects exactly the non-divergent points with finite energy error <= max_energy_error and finite position and gradient; orbit mode per leapfrog, otherwise per draw (%d paths)' % n)
+    else: rep.holds('C05.7 DrawCollector (flow adaptation): every collected point is non-divergent with a finite energy error <= max_energy_error and finite position and gradient, in both modes (%d paths)' % n)
 
 # ------------------------------------------------------------------------------------------------
 def init_state(rep, mir, L):
